@@ -163,6 +163,10 @@ class Vale:
         base['IsAttr(IsEqual)'] = self.make('IsAttr', ('real', self.make('IsEqual', lit2)))
         base['IsAttr(IsInstance)'] = self.make('IsAttr', ('real', self.make('IsInstance', T)))
         base['IsAttr(IsAttr)'] = self.make('IsAttr', ('real', self.make('IsAttr', ('imag', self.make('IsEqual', lit2)))))
+        # the same attribute at two nesting levels with a sibling read after the nested validator (the outer
+        # temporary must survive the inner one)
+        base['IsAttr(IsAttr-same&IsInstance)'] = self.make('IsAttr', ('real', self.op(
+            '&', self.make('IsAttr', ('real', self.make('IsEqual', lit2))), self.make('IsInstance', T))))
         out = dict(base)
         out['IsEqual&IsInstance'] = self.op('&', self.make('IsEqual', lit), self.make('IsInstance', T))
         out['IsEqual|Is'] = self.op('|', self.make('IsEqual', lit), self.make('Is', ACallable('g')))
